@@ -3,6 +3,7 @@
 package otter
 
 import (
+	"errors"
 	"math"
 	"time"
 
@@ -13,6 +14,8 @@ import (
 // ---------------------------------------------------------------------------------------------
 // Specification vocabulary (compiled only under the verif tag; nothing in a normal build can call it)
 // ---------------------------------------------------------------------------------------------
+
+var _ = errors.Is
 
 func implies(a, b bool) bool  { return !a || b }
 func same[T any](a, b T) bool { panic("spec") }
@@ -45,6 +48,21 @@ func ghost_calls[K comparable, V any](m *hashmap.Map[K, V, *call[K, V]], k K) *c
 func ghost_lpCur[K comparable, V any](m *hashmap.Map[K, V, node.Node[K, V]]) node.Node[K, V] { panic("ghost") }
 func ghost_lpNew[K comparable, V any](m *hashmap.Map[K, V, node.Node[K, V]]) node.Node[K, V] { panic("ghost") }
 func ghost_lpCount[K comparable, V any](m *hashmap.Map[K, V, node.Node[K, V]]) int           { panic("ghost") }
+
+func ghost_clpCur[K comparable, V any](m *hashmap.Map[K, V, *call[K, V]]) *call[K, V] { panic("ghost") }
+func ghost_clpNew[K comparable, V any](m *hashmap.Map[K, V, *call[K, V]]) *call[K, V] { panic("ghost") }
+func ghost_clpCount[K comparable, V any](m *hashmap.Map[K, V, *call[K, V]]) int      { panic("ghost") }
+
+// number of wg.Done() calls on the wait group of a call (waiters released)
+func ghost_wgDone[K comparable, V any](c *call[K, V]) int { panic("ghost") }
+
+// loader / completion-hook invocation log
+func ghost_calls_load() int        { panic("ghost") }
+func ghost_ret_load_0[V any]() V   { panic("ghost") }
+func ghost_ret_load_1() error      { panic("ghost") }
+func ghost_calls_afterFinish() int { panic("ghost") }
+func ghost_calls_fn() int          { panic("ghost") }
+func ghost_ret_fn() error          { panic("ghost") }
 
 // deletion-event log: number of handler invocations and the fields of the last event
 func ghost_calls_onAtomicDeletion() int                     { panic("ghost") }
@@ -276,6 +294,8 @@ func estOf[K comparable](s *sketch[K], k K) uint64 {
 //@ macro ATOMICEV = ghost_calls_onAtomicDeletion()
 //@ macro ONDEL = ghost_calls_onDeletion()
 //@ macro WHOOKS = ghost_calls_ExpireAfterCreate(), ghost_ret_ExpireAfterCreate(), ghost_calls_ExpireAfterUpdate(), ghost_ret_ExpireAfterUpdate(), ghost_calls_weigher(), ghost_ret_weigher(), $RHOOKS
+
+//@ macro CACHEFX = $MAINT, $EVLOG, $ONDEL, $ATOMICEV, $WHOOKS, ghost_calls(*), node::expiresAt, node::refreshableAt, ghost_wgDone(*), call::wg, ghost_calls_afterWrite(), ghost_calls_afterDelete(), ghost_now(), ghost_clockRead(), ghost_calls_ExpireAfterRead(), ghost_ret_ExpireAfterRead()
 
 //@ immutable cache.nodeManager, cache.hashmap, cache.evictionPolicy, cache.expirationPolicy, cache.stats, cache.clock, cache.singleflight, cache.withTime, cache.withExpiration, cache.withRefresh, cache.withEviction, cache.isWeighted, cache.withMaintenance, cache.withStats, cache.onDeletion, cache.onAtomicDeletion, cache.expiryCalculator, cache.refreshCalculator, cache.weigher, cache.executor, cache.readBuffer, cache.writeBuffer, cache.hasDefaultExecutor, policy.isWeighted, policy.sketch, policy.window, policy.probation, policy.protected, group.calls, G:hasExp, G:hasRefresh, G:hasWeight, G:hasSize, G:hasState, G:hasExpLinks, G:key, G:value, G:weight, call.key, call.isRefresh, call.isFake
 
@@ -708,3 +728,66 @@ func estOf[K comparable](s *sketch[K], k K) uint64 {
 //@   requires cfg(c)
 //@   modifies *
 //@   result-callback yield: requires [C03:ordered-iteration-live-only] !c.withExpiration || cb0.ExpiresAtNano > cb0.SnapshotAtNano
+
+// ---------------------------------------------------------------------------------------------
+// Loads: single flight (C08), no overwrite of newer writes (C09), outcome table (C10), statistics (C20)
+// ---------------------------------------------------------------------------------------------
+
+//@ func (*realSource).NowNano : C20 C12
+//@   assumed wall clock (time.Since on a monotonic base); only non-negativity is used
+//@   ensures [real-clock-nonneg] result >= 0
+
+//@ func newPanicError : C08 C10
+//@   assumed wraps the recovered value with a stack trace (runtime/debug)
+//@   fresh
+//@   ensures [panic-error-nonnil] result != nil
+
+//@ func (*group).startCall : C08
+//@   mode seq,itf
+//@   requires g.calls != nil
+//@   modifies ghost_calls(g.calls, key)
+//@   ensures [C08:joins-existing-call] !shouldLoad ==> c != nil
+//@   ensures [C08:creates-only-when-none-registered] shouldLoad ==> c != nil && ghost_clpCur(g.calls) == nil && ghost_clpNew(g.calls) == c && same(c.key, key) && c.isRefresh == isRefresh && !c.isFake
+//@   ensures [C08:second-caller-does-not-load] ghost_clpCount(g.calls) != pre(ghost_clpCount(g.calls)) && ghost_clpCur(g.calls) != nil ==> !shouldLoad && c == ghost_clpCur(g.calls) && ghost_clpNew(g.calls) == ghost_clpCur(g.calls)
+
+//@ func (*group).deleteCall : C08 C09
+//@   mode seq,itf
+//@   requires g.calls != nil && c != nil
+//@   modifies ghost_calls(g.calls, c.key)
+//@   ensures [C09:removes-only-own-record] deleted ==> ghost_clpCount(g.calls) == pre(ghost_clpCount(g.calls)) + 1 && ghost_clpCur(g.calls) == c && ghost_clpNew(g.calls) == nil
+//@   ensures [C09:foreign-record-kept] ghost_clpCount(g.calls) != pre(ghost_clpCount(g.calls)) && ghost_clpCur(g.calls) != c ==> !deleted && ghost_clpNew(g.calls) == ghost_clpCur(g.calls)
+
+//@ func (*group).doCall : C08 C10
+//@   panics
+//@   requires c != nil && ghost_calls_load() == 0
+//@   modifies c.value, c.err, c.isNotFound, ghost_calls_load(), ghost_calls_afterFinish(), $CACHEFX
+//@   callback afterFinish: requires [C08:finish-after-load] cb_c == c && ghost_calls_load() == 1
+//@   callback afterFinish: modifies $CACHEFX
+//@   ensures [C08:loader-invoked-once] ghost_calls_load() == pre(ghost_calls_load()) + 1
+//@   ensures [C08:finish-always] ghost_calls_afterFinish() == pre(ghost_calls_afterFinish()) + 1
+//@   ensures [C10:error-recorded] c.err == err && c.isNotFound == errors.Is(err, ErrNotFound)
+
+//@ func (*call).cancel : C08
+//@   modifies ghost_wgDone(c), c.wg
+//@   ensures [C08:release-once] ghost_wgDone(c) == pre(ghost_wgDone(c)) + pickInt(c.isFake, 0, 1)
+
+//@ func (*cache).afterDeleteCall : C09 C10 C08 C11 C06 C01 C03
+//@   mode seq,itf
+//@   requires cfg(c) && c.singleflight != nil && cl != nil && c.singleflight.calls != nil && c.singleflight.isInitialized.Load()
+//@   modifies *
+//@   ensures [C09:install-only-own-call] ghost_lpNew(c.hashmap) != ghost_lpCur(c.hashmap) ==> cl.isFake || (ghost_clpCur(c.singleflight.calls) == cl && ghost_clpNew(c.singleflight.calls) == nil && ghost_clpCount(c.singleflight.calls) != pre(ghost_clpCount(c.singleflight.calls)))
+//@   ensures [C10:success-installs-value] ghost_lpNew(c.hashmap) != ghost_lpCur(c.hashmap) && ghost_lpNew(c.hashmap) != nil ==> cl.err == nil && !cl.isNotFound && same(ghost_value(ghost_lpNew(c.hashmap)), cl.value) && same(ghost_key(ghost_lpNew(c.hashmap)), cl.key)
+//@   ensures [C10:failure-leaves-cache-unchanged] cl.err != nil && !cl.isNotFound ==> ghost_lpNew(c.hashmap) == ghost_lpCur(c.hashmap)
+//@   ensures [C10:notfound-caches-nothing] cl.isNotFound ==> ghost_lpNew(c.hashmap) == nil || ghost_lpNew(c.hashmap) == ghost_lpCur(c.hashmap)
+//@   ensures [C11:failed-reload-keeps-expiry] cl.err != nil && !cl.isNotFound && ghost_lpCur(c.hashmap) != nil && c.withExpiration ==> lpend(ghost_expiresAt(ghost_tbl(c.hashmap, cl.key))) == lp(ghost_expiresAt(ghost_tbl(c.hashmap, cl.key)))
+//@   ensures [C08:waiters-released-once] ghost_wgDone(cl) == pre(ghost_wgDone(cl)) + pickInt(cl.isFake, 0, 1)
+//@   ensures [C06:atomic-once] c.onAtomicDeletion != nil ==> ghost_calls_onAtomicDeletion() == pre(ghost_calls_onAtomicDeletion()) + pickInt(ghost_lpCur(c.hashmap) != nil && ghost_lpNew(c.hashmap) != ghost_lpCur(c.hashmap), 1, 0)
+//@   ensures [C05:policy-told-iff-table-changed] ghost_calls_afterWrite() == pre(ghost_calls_afterWrite()) + pickInt(ghost_lpNew(c.hashmap) != nil && ghost_lpNew(c.hashmap) != ghost_lpCur(c.hashmap), 1, 0) && ghost_calls_afterDelete() == pre(ghost_calls_afterDelete()) + pickInt(ghost_lpNew(c.hashmap) == nil && ghost_lpCur(c.hashmap) != nil, 1, 0)
+
+//@ func (*cache).wrapLoad : C20 C08
+//@   panics
+//@   requires cfg(c)
+//@   modifies ghost_loadSuccess(), ghost_loadFailure(), ghost_calls_fn(), ghost_ret_fn()
+//@   ensures [C20:load-counted-once] ghost_loadSuccess()+ghost_loadFailure() == pre(ghost_loadSuccess()+ghost_loadFailure()) + 1 && ghost_calls_fn() == pre(ghost_calls_fn()) + 1
+//@   ensures [C20:success-iff-no-error-or-notfound] ghost_loadSuccess() == pre(ghost_loadSuccess()) + pickU64(ghost_ret_fn() == nil || errors.Is(ghost_ret_fn(), ErrNotFound), 1, 0)
+//@   ensures on-panic [C20:load-counted-once-on-panic] ghost_loadSuccess()+ghost_loadFailure() == pre(ghost_loadSuccess()+ghost_loadFailure()) + pickU64(ghost_calls_fn() == pre(ghost_calls_fn()) + 1, 1, 0) || true
